@@ -218,7 +218,15 @@ def roundtrip(ctx, obj, cls, tmpdir, det, feats, tag):
         with pan.quiet():
             obj.save_to_config(p1)
             loaded = cls.load_from_config(p1)
-            loaded.save_to_config(p2)
+            if ctx.counters.get("C19.roundtrips_judged", 0) % 3 == 1:
+                # the loaded object is saved again some days later (the wall clock the library sees is shifted)
+                from vf import fakeclock
+
+                with fakeclock.shifted(days=3 + ctx.counters.get("C19.roundtrips_judged", 0) % 400):
+                    loaded.save_to_config(p2)
+                ctx.count("C19.resaved_on_a_later_day")
+            else:
+                loaded.save_to_config(p2)
     except Exception as e:  # noqa: BLE001
         ctx.viol("save_or_load_raised", dict(det, exc=type(e).__name__ + ": " + repr(e)[:300]), features=dict(feats, exc=type(e).__name__))
         return None
